@@ -410,42 +410,191 @@ def run_grid(rd):
 
 
 # ------------------------------------------------------------------ descriptors: inputs
+def one_desc(rng, kind, generic, cap=400, shape=None):
+    """one descriptor input (a replay dict).  shape=(C, N) fixes the ensemble size."""
+    C, N = shape or (rng.randint(1, 4), rng.randint(1, 7))
+    if generic:
+        f32 = np_().float32          # arbitrary (not lattice-aligned) coordinates, representable in float32
+        coords = [[[float(f32(rng.uniform(-3, 3))) for _ in range(3)] for _ in range(N)] for _ in range(C)]
+    else:
+        coords = [[[rng.randint(-48, 48) / 16.0 for _ in range(3)] for _ in range(N)] for _ in range(C)]
+    flat = [p for c in coords for p in c]
+    lo = [math.floor(min(p[k] for p in flat) * 4) / 4 for k in range(3)]
+    hi = [math.ceil(max(p[k] for p in flat) * 4) / 4 for k in range(3)]
+    pad = rng.choice([0.5, 1.0, 1.5])
+
+    def npts(sp):
+        return math.prod(int((hi[k] - lo[k] + 2 * pad) // sp) + 1 for k in range(3))
+    fits = [sp for sp in (0.5, 0.75, 1.0, 1.25, 1.5, 2.0, 3.0) if npts(sp) <= cap] or [4.0]
+    grid = dict(r1=lo, r2=hi, pad=pad, s=rng.choice(fits[:3]), dtype=("float32" if rng.random() < 0.8 else "float64"))
+    rd = dict(kind=kind, stream=("generic" if generic else "dyadic"), coords=coords, elements=[rng.choice(ELEMS) for _ in range(N)],
+              weights=[rng.randint(1, 16) / 8.0 for _ in range(C)], charges=[[rng.randint(-64, 64) / 64.0 for _ in range(N)] for _ in range(C)],
+              grid=grid, weighted=(rng.random() < 0.5))
+    if kind in ("nearest", "prune"):
+        rd["cut"] = rng.choice([0.5, 1.0, 1.5, 2.0, 2.5, 3.0])
+        rd["eps"] = rng.choice([0.0, 0.25, 0.5, 1.0])
+        rd["target"] = rng.choice(["ens", "ens", "geom", "struct", "mol", "conf"])
+    if kind == "aif":
+        rd["radii"] = [rng.choice([0.5, 1.0, 1.25, 1.5, 2.0, 1.7, 1.1]) for _ in range(N)]
+        rd["values"] = [[rng.randint(-32, 32) / 8.0 for _ in range(N)] for _ in range(C)]
+        rd["pass_idx"] = rng.random() < 0.5
+    return rd
+
+
+DESC_KINDS = ("nearest", "prune", "aso", "aeif", "aif")
+
+
 def desc_inputs(ctx):
     rng = ctx.rng
     out = []
-    n = 14 if not ctx.thorough else 120
-    pent = None
+    n = 10 if not ctx.thorough else 120
     for i in range(n):
-        for kind in ("nearest", "prune", "aso", "aeif", "aif"):
-            generic = (i % 3 == 2)
-            C, N = rng.randint(1, 4), rng.randint(1, 7)
-            if generic:
-                f32 = np_().float32          # arbitrary (not lattice-aligned) coordinates, representable in float32
-                coords = [[[float(f32(rng.uniform(-3, 3))) for _ in range(3)] for _ in range(N)] for _ in range(C)]
-            else:
-                coords = [[[rng.randint(-48, 48) / 16.0 for _ in range(3)] for _ in range(N)] for _ in range(C)]
-            flat = [p for c in coords for p in c]
-            lo = [math.floor(min(p[k] for p in flat) * 4) / 4 for k in range(3)]
-            hi = [math.ceil(max(p[k] for p in flat) * 4) / 4 for k in range(3)]
-            pad = rng.choice([0.5, 1.0, 1.5])
-            cap = 400
+        for kind in DESC_KINDS:
+            out.append(one_desc(rng, kind, generic=(i % 3 == 2)))
+    return out
 
-            def npts(sp):
-                return math.prod(int((hi[k] - lo[k] + 2 * pad) // sp) + 1 for k in range(3))
-            fits = [sp for sp in (0.5, 0.75, 1.0, 1.25, 1.5, 2.0, 3.0) if npts(sp) <= cap] or [4.0]
-            grid = dict(r1=lo, r2=hi, pad=pad, s=rng.choice(fits[:3]), dtype=("float32" if rng.random() < 0.8 else "float64"))
-            rd = dict(kind=kind, stream=("generic" if generic else "dyadic"), coords=coords, elements=[rng.choice(ELEMS) for _ in range(N)],
-                      weights=[rng.randint(1, 16) / 8.0 for _ in range(C)], charges=[[rng.randint(-64, 64) / 64.0 for _ in range(N)] for _ in range(C)],
-                      grid=grid, weighted=(rng.random() < 0.5))
-            if kind in ("nearest", "prune"):
-                rd["cut"] = rng.choice([0.5, 1.0, 1.5, 2.0, 2.5, 3.0])
-                rd["eps"] = rng.choice([0.0, 0.25, 0.5, 1.0])
-                rd["target"] = rng.choice(["ens", "ens", "geom", "struct", "mol", "conf"])
-            if kind == "aif":
-                rd["radii"] = [rng.choice([0.5, 1.0, 1.25, 1.5, 2.0, 1.7, 1.1]) for _ in range(N)]
-                rd["values"] = [[rng.randint(-32, 32) / 8.0 for _ in range(N)] for _ in range(C)]
-                rd["pass_idx"] = rng.random() < 0.5
-            out.append(rd)
+
+# ------------------------------------------------------------------ descriptors on objects with a HISTORY
+# call -> edit the same object in place -> call again (translate / scale / quarter-turn rotation / coordinate, charge and
+# weight assignment), and streams of short-lived same-sized objects (CPython reuses ids): every call must agree with the
+# model evaluated on the object's CURRENT state.  All edits keep the coordinates dyadic with few bits.
+ROT90 = [[[1, 0, 0], [0, 0, -1], [0, 1, 0]], [[0, 0, 1], [0, 1, 0], [-1, 0, 0]], [[0, -1, 0], [1, 0, 0], [0, 0, 1]]]
+
+
+def seq_inputs(ctx):
+    rng = ctx.rng
+    out = []
+    reps = 2 if not ctx.thorough else 16
+    for kind in DESC_KINDS:
+        for r in range(reps + max(1, reps // 2)):
+            base = one_desc(rng, kind, generic=False, cap=220)
+            C, N = len(base["coords"]), len(base["coords"][0])
+            steps = []
+            if r < reps:                                   # in-place edits of one object
+                for _ in range(3):
+                    op = rng.choice(["translate", "translate", "scale", "rot90", "assign", "assign", "charges", "weights"])
+                    if op == "translate":
+                        steps.append(["translate", [rng.randint(-8, 8) / 4.0 for _ in range(3)]])
+                    elif op == "scale":
+                        steps.append(["scale", rng.choice([0.5, 2.0, 0.75])])
+                    elif op == "rot90":
+                        steps.append(["rot90", rng.randint(0, 2)])
+                    elif op == "assign":
+                        steps.append(["assign", one_desc(rng, kind, False, shape=(C, N))["coords"]])
+                    elif op == "charges":
+                        steps.append(["charges", [[rng.randint(-64, 64) / 64.0 for _ in range(N)] for _ in range(C)]])
+                    else:
+                        steps.append(["weights", [rng.randint(1, 16) / 8.0 for _ in range(C)]])
+            else:                                          # fresh same-sized objects, each dropped before the next is built
+                for _ in range(3):
+                    f = one_desc(rng, kind, False, shape=(C, N))
+                    steps.append(["fresh", {k: f[k] for k in ("coords", "weights", "charges")}])
+            out.append(dict(kind="seq", stream="dyadic", desc=kind, base=base, steps=steps))
+    return out
+
+
+_STAT = {}
+
+
+def apply_step(ml, rd, objs, step):
+    """edit the live object(s) in place (or replace them by a fresh object of the same size); returns the new objs"""
+    np = np_()
+    import gc
+    ens, tgt = objs
+    op, arg = step
+    plain = rd.get("target", "ens") in ("geom", "struct", "mol")
+    obj = tgt if plain else ens
+    if op == "translate":
+        obj.translate(np.array(arg, dtype=float))
+    elif op == "scale":
+        obj.scale(arg)
+    elif op == "rot90":
+        M = np.array(ROT90[arg], dtype=float)
+        (obj.transform(M) if plain else obj.rotate(M))
+    elif op == "assign":
+        new = np.array(arg, dtype=float)
+        obj.coords[:] = (new[0] if plain else new)
+    elif op == "charges":
+        ens.atomic_charges[:] = np.array(arg, dtype=float)
+    elif op == "weights":
+        ens.weights[:] = np.array(arg, dtype=float)
+    elif op == "fresh":
+        # A stream of short-lived same-sized objects: K warm-up objects are built, used once and dropped together with the
+        # current one; then fresh objects are built until one lands on an id that a dead object had (CPython reuses ids).
+        import random
+        r = random.Random(json.dumps(arg, sort_keys=True))
+        C, N = len(rd["coords"]), len(rd["coords"][0])
+        old_ids, warm = {id(tgt)}, []
+        for _ in range(24):
+            st = dict(rd, coords=[[[r.randint(-48, 48) / 16.0 for _ in range(3)] for _ in range(N)] for _ in range(C)])
+            o = fresh_objs(ml, st, ens if plain else None)
+            run_desc(ml, st, o)
+            old_ids.add(id(o[1]))
+            warm.append(o)
+        keep = ens if plain else None
+        del warm, o, tgt, obj, objs
+        if not plain:
+            del ens
+        gc.collect()
+        fresh = dict(rd, **arg)
+        hold = []
+        for _ in range(400):
+            cand = fresh_objs(ml, fresh, keep)
+            if id(cand[1]) in old_ids:
+                break
+            hold.append(cand)
+        _STAT["reused"] = id(cand[1]) in old_ids
+        del hold
+        return cand
+    return (ens, tgt)
+
+
+def fresh_objs(ml, rd, keep_ens=None):
+    """(ensemble, target) built from rd; a plain-geometry target does not need a new ensemble"""
+    np = np_()
+    t = rd.get("target", "ens")
+    if t in ("geom", "struct", "mol") and keep_ens is not None:
+        co = np.array(rd["coords"], dtype=np.float64)
+        cls = {"geom": ml.CartesianGeometry, "struct": ml.Structure, "mol": ml.Molecule}[t]
+        return (keep_ens, cls(n_atoms=co.shape[1], coords=co[0]))
+    e = build(ml, rd)
+    return (e, target_of(ml, rd, e)[0])
+
+
+def state_of(rd, objs):
+    """replay dict describing what the live object holds NOW"""
+    np = np_()
+    ens, tgt = objs
+    co = np.array(ens.coords, dtype=float).copy()
+    if rd.get("target", "ens") in ("geom", "struct", "mol"):
+        co[0] = np.array(tgt.coords, dtype=float)
+    return dict(rd, coords=co.tolist(), weights=np.array(ens.weights, dtype=float).tolist(),
+                charges=np.array(ens.atomic_charges, dtype=float).tolist())
+
+
+def run_seq(ml, sd):
+    """list of (term|None, violation|None, info) -- one entry per call of the descriptor"""
+    rd = dict(sd["base"])
+    ens = build(ml, rd)
+    objs = (ens, target_of(ml, rd, ens)[0])
+    del ens
+    out = [run_desc(ml, rd, objs)]
+    hist = []
+    for step in sd["steps"]:
+        try:
+            objs = apply_step(ml, rd, objs, step)
+        except Exception as e:  # noqa
+            out.append((None, None, {"skipped": f"edit {step[0]} raised {e!r} (not a descriptor matter)"}))
+            break
+        hist.append(step[0])
+        rd = state_of(rd, objs)
+        term, viol, info = run_desc(ml, rd, objs)
+        if step[0] == "fresh":
+            info = dict(info, id_reused=_STAT.get("reused", False))
+        if viol:
+            viol = (viol[0] + ":after-" + ("fresh-object" if step[0] == "fresh" else "in-place-edit"),
+                    f"after {' -> '.join(hist)} on the same object: " + viol[1])
+        out.append((term, viol, info))
     return out
 
 
@@ -489,6 +638,14 @@ def ptsq(X):
     return f"(qpts {den} [{body}]%Z)"
 
 
+def cosel_of(rd):
+    """coordinates of the object the call is made on, as a list of conformers"""
+    np = np_()
+    co = np.array(rd["coords"], dtype=np.float64)
+    t = rd.get("target", "ens")
+    return co if t == "ens" else (co[len(co) - 1:] if t == "conf" else co[0:1])
+
+
 def ensq(E):
     return cq_list(ptsq(X) for X in E)
 
@@ -503,8 +660,9 @@ def ql(l):
     return f"(qnums {den} [" + "; ".join(str(int(v * den)) for v in F) + "]%Z)"
 
 
-def run_desc(ml, rd):
-    """(term|None, violation|None, info)"""
+def run_desc(ml, rd, objs=None):
+    """(term|None, violation|None, info).  objs = (ensemble, target) when the call is made on live objects whose current
+    state is described by rd; otherwise they are built from rd."""
     np = np_()
     from molli.descriptor import gridbased as gb
     kind = rd["kind"]
@@ -516,14 +674,14 @@ def run_desc(ml, rd):
     if grid.shape[0] == 0 or grid.shape[0] > 400:
         return None, None, {"skipped": "empty or oversized grid"}
     g64 = np.asarray(grid, dtype=np.float64)
-    ens = build(ml, rd)
+    ens = objs[0] if objs else build(ml, rd)
     co = np.array(rd["coords"], dtype=np.float64)
     d2 = ((co[:, :, None, :] - g64[None, None, :, :]) ** 2).sum(-1)            # (C, N, G), float64 reference
     info = {"G": int(grid.shape[0])}
     what = f"{kind} on {co.shape[0]} conformer(s) x {co.shape[1]} atom(s), grid {gp}"
     try:
         if kind == "nearest":
-            tgt, cosel = target_of(ml, rd, ens)
+            tgt, cosel = (objs[1], cosel_of(rd)) if objs else target_of(ml, rd, ens)
             obs = np.asarray(gb.nearest_atom_index(grid, tgt, max_dist=rd["cut"]))
             rows = obs.reshape((-1, grid.shape[0])) if obs.ndim == 1 else obs
             dsel = np.sqrt(((cosel[:, :, None, :] - g64[None, None, :, :]) ** 2).sum(-1))
@@ -550,7 +708,7 @@ def run_desc(ml, rd):
             term = f"(CNearest {q(NEAR_BAND)} {ensq(cosel.tolist())} {q(rd['cut'])} {ptsq(g64.tolist())} {cq_list(zl(r) for r in rows.tolist())})"
             return term, viol, info
         if kind == "prune":
-            tgt, cosel = target_of(ml, rd, ens)
+            tgt, cosel = (objs[1], cosel_of(rd)) if objs else target_of(ml, rd, ens)
             kept = np.asarray(gb.prune(grid, tgt, max_dist=rd["cut"], eps=rd["eps"]))
             atoms = cosel.reshape((-1, 3))
             dmin = np.sqrt(((atoms[:, None, :] - g64[None, :, :]) ** 2).sum(-1)).min(axis=0)
@@ -681,19 +839,27 @@ def run(ctx, rep):
     # ---- grid and descriptors
     import molli as ml
     gterms, gowners, gflagged = [], [], set()
-    for rd in grid_inputs(ctx) + desc_inputs(ctx):
-        term, viol, info = run_grid(rd) if rd["kind"] == "grid" else run_desc(ml, rd)
-        rep.count(f"{rd['kind']}:{rd['stream']}" + (":" + rd["target"] if "target" in rd else ""))
-        if viol:
-            gflagged.add(len(gowners))
-            rep.violate("C19:" + (("grid:" + viol[0]) if rd["kind"] == "grid" else viol[0]), viol[1], rd)
-        if term is None:
-            rep.case(key=None)
-            rep.count("not-compared")
-            continue
-        rep.case(key=json.dumps(rd, sort_keys=True), sample=(rd if len(gterms) % 40 == 0 else None))
-        gterms.append(term)
-        gowners.append(rd)
+    for rd in grid_inputs(ctx) + desc_inputs(ctx) + seq_inputs(ctx):
+        if rd["kind"] == "seq":
+            results = [(f"seq:{rd['desc']}:" + ("call-0" if i == 0 else ("fresh" if rd["steps"][i - 1][0] == "fresh" else "edited")), dict(rd, call=i), r)
+                       for i, r in enumerate(run_seq(ml, rd))]
+        else:
+            results = [(f"{rd['kind']}:{rd['stream']}" + (":" + rd["target"] if "target" in rd else ""), rd,
+                        run_grid(rd) if rd["kind"] == "grid" else run_desc(ml, rd))]
+        for tag, owner, (term, viol, info) in results:
+            rep.count(tag)
+            if info.get("id_reused"):
+                rep.count("seq:fresh:landed-on-the-id-of-a-dead-object")
+            if viol:
+                gflagged.add(len(gowners))
+                rep.violate("C19:" + (("grid:" + viol[0]) if rd["kind"] == "grid" else viol[0]), viol[1], owner)
+            if term is None:
+                rep.case(key=None)
+                rep.count("not-compared")
+                continue
+            rep.case(key=json.dumps(owner, sort_keys=True), sample=(owner if len(gterms) % 40 == 0 and rd["kind"] != "seq" else None))
+            gterms.append(term)
+            gowners.append(owner)
     rep.extra["t_grid_driven"] = round(time.time() - t0, 1)
     # spread the expensive kinds evenly over the shards
     nsh = 16 if not ctx.thorough else 64
@@ -759,6 +925,12 @@ def widen(ctx, rep, kinds):
     if rest:
         import molli as ml
         pool = (grid_inputs(sub) if "grid" in rest else []) + [rd for rd in desc_inputs(sub) if rd["kind"] in rest][:400]
+        if "seq" in rest:
+            for sd in seq_inputs(sub)[:120]:
+                for i, (_, viol, _) in enumerate(run_seq(ml, sd)):
+                    if viol:
+                        rep.violate("C19:" + viol[0], viol[1], dict(sd, call=i))
+                        return True
         for rd in pool:
             _, viol, _ = run_grid(rd) if rd["kind"] == "grid" else run_desc(ml, rd)
             if viol:
@@ -777,6 +949,9 @@ def replay(ctx, data):
     if data.get("kind") == "grid":
         _, viol, _ = run_grid(data)
         return [vlib.Violation("C19:grid:" + viol[0], viol[1], data)] if viol else []
+    if data.get("kind") == "seq":
+        import molli as ml
+        return [vlib.Violation("C19:" + viol[0], viol[1], dict(data, call=i)) for i, (_, viol, _) in enumerate(run_seq(ml, data)) if viol]
     if data.get("kind") in ("nearest", "prune", "aso", "aeif", "aif"):
         import molli as ml
         _, viol, _ = run_desc(ml, data)
